@@ -7,5 +7,6 @@ cd "$ROOT/coq"
 coq_makefile -f _CoqProject -o Makefile > /dev/null
 timeout 3000 make -j16
 sh "$ROOT/ocaml/build.sh"
+python3 "$ROOT/tools/extraction_check.py" 40
 mkdir -p "$ROOT/evidence" "$ROOT/replays" "$ROOT/.scratch"
 echo "setup ok"
